@@ -421,8 +421,8 @@ def transparent_helpers(doc):
         if k in failed:
             continue
         still = any(ck == k for b in bodies if b['key'] != k for _, ck in _calls_of(b))
-        # inlined everywhere, or never called at all in this configuration (its only callers are cfg'd out): not a body of its own
-        if not still and not _mentions_fn_value(doc, k):
+        # inlined everywhere: not a body of its own (a helper that is never called stays: it is dead code the rules still look at)
+        if not still and k in info['inlined'] and not _mentions_fn_value(doc, k):
             gone.add(k)
     if gone:
         doc['bodies'] = [b for b in bodies if b['key'] not in gone]
